@@ -88,6 +88,9 @@ class ParseRecv(ICommParseRecv):
             if decode.scale:
                 # scale numeric data
                 vect_scale_l = [x * decode.scale for x in sample.data]
+                if decode.scale != 1:
+                    # fixed-point data are packed as integers
+                    vect_scale_l = [round(x) for x in vect_scale_l]
             else:
                 # not scaled
                 vect_scale_l = list(sample.data)
